@@ -54,6 +54,15 @@ def gen_plan(rng, tier, index, config=None):
         else:
             steps.append({"op": "fragment", "seed": r.bytes(16).hex(), "path": "%d/%dH/%d" % (r.below(5), r.below(5), r.below(1000)),
                           "script": r.bytes(r.between(1, 80)).hex()})
+    # the same inputs come back: what was hashed a moment ago is hashed again (interleaved with the others)
+    if r.chance(0.5):
+        pool = [x for x in steps if x["op"] in ("digest", "murmur")]
+        for _ in range(r.between(1, 6)):
+            if pool:
+                steps.insert(r.between(0, len(steps)), dict(r.pick(pool[-6:] if r.chance(0.7) else pool)))
+        tail = [dict(x) for x in pool[-4:]]
+        if len(tail) >= 2 and r.chance(0.5):
+            steps.extend([tail[0], tail[-1]] if r.chance(0.5) else tail)
     if not any(s["op"] == "select" for s in steps):
         steps.insert(0, {"op": "select", "probe": "raises", "listed": True, "env": None, "crypto": "absent"})
     return {"world": NAME, "config": {"name": "hash"}, "steps": steps}
